@@ -409,6 +409,18 @@ fn main() {
             Op { m: "header".into(), a: vec![dir.join("t.h").to_string_lossy().into_owned()] },
             Op { m: "clang_arg".into(), a: vec!["-DTWO".into()] }] });
     }
+    // three and four headers whose meaning depends on the order they are included in
+    {
+        std::fs::write(dir.join("cfg_a.h"), "#define C13_CFG 1\nint cfg_a_marker;\n").unwrap();
+        std::fs::write(dir.join("cfg_b.h"), "#ifdef C13_CFG\ntypedef long c13_sel_t;\n#else\ntypedef char c13_sel_t;\n#endif\n#undef C13_CFG\n#define C13_B 1\n").unwrap();
+        std::fs::write(dir.join("cfg_c.h"), "#if defined(C13_B) && !defined(C13_CFG)\nstruct c13_late { c13_sel_t v; };\n#else\nstruct c13_early { int v; };\n#endif\n").unwrap();
+        let h = |n: &str| Op { m: "header".into(), a: vec![dir.join(n).to_string_lossy().into_owned()] };
+        cases.push(Case { class: "single:three_headers".into(), cpp: false, start: None, ops: vec![h("cfg_a.h"), h("cfg_b.h"), h("cfg_c.h")] });
+        cases.push(Case { class: "single:four_headers".into(), cpp: false, start: None, ops: vec![h("cfg_a.h"), h("cfg_b.h"), h("cfg_c.h"), h("t.h"),
+            Op { m: "clang_arg".into(), a: vec!["-DFOUR".into()] }] });
+        cases.push(Case { class: "single:headers_list3".into(), cpp: false, start: None, ops: vec![
+            Op { m: "headers".into(), a: vec![dir.join("cfg_a.h").to_string_lossy().into_owned(), dir.join("cfg_b.h").to_string_lossy().into_owned(), dir.join("cfg_c.h").to_string_lossy().into_owned()] }] });
+    }
     // (2) pairs of boolean-ish methods
     let boolish: Vec<(&str, &str)> = METHODS.iter().filter(|m| m.2 == "bool" || m.2 == "unit").map(|m| (m.0, m.2))
         .filter(|m| !matches!(m.0, "emit_clang_ast" | "emit_ir")).collect();
